@@ -1322,7 +1322,14 @@ def run(ctx):
                 if f['phase'] in ('raises', 'raises_fatal') and f.get('exc'):
                     later = any(e.get('pid') == f['pid'] and e.get('ev') == 'req' and e.get('k', -1) > f['k']
                                 for e in r['events'])
-                    survived.setdefault(f['exc'], set()).add(bool(later) or (not q['ok'] and q['cls'] == f['exc']))
+                    # decisive observations only: the helper served a later request or the class came
+                    # back re-raised (survived); the query ended in InternalError (it died).  A query
+                    # that swallowed the re-raised exception and was the helper's last one says nothing
+                    # (seen with `Exception` itself, which jedi's own `except Exception` clauses absorb).
+                    if later or (not q['ok'] and q['cls'] == f['exc']):
+                        survived.setdefault(f['exc'], set()).add(True)
+                    elif not q['ok'] and q['cls'] == 'InternalError':
+                        survived.setdefault(f['exc'], set()).add(False)
     if ctx.model_ok:
         answers = common.run_driver_parallel('C14', reqs)
         for j, nm in enumerate(names):
